@@ -544,8 +544,17 @@ def _seq_nontrivial(seq):
     return bool(("connect" in names and names & DATA_CLASSES) or names & ACK_CLASSES)
 
 
+def prefix_probes(pos: int):
+    """every proper prefix (0 .. len-1 octets) of the datagram of each of the 12 classes at history position pos"""
+    for ci in range(len(CLASSES)):
+        base = exh_op(ci, pos)
+        for cut in range(len(build(base))):
+            yield {"k": "d", "cls": "damaged", "src": 0, "base": base, "trunc": cut}
+
+
 def drv_exhaustive(ctx: Ctx, sub: SubCheck):
     depth = ctx.pick(5, 6)
+    probe_depth = ctx.pick(2, 3)  # truncation probes after every class sequence up to this length
     n = len(CLASSES)
     items = list(itertools.product(range(n), repeat=2))
 
@@ -555,9 +564,10 @@ def drv_exhaustive(ctx: Ctx, sub: SubCheck):
         seq = []
         confirmed = {}
 
-        def visit(ci):
-            """apply class ci at the current position; returns False when the history failed (subtree is not explored)."""
-            op = exh_op(ci, len(seq))
+        def visit(ci, op=None):
+            """apply class ci (or the given probe op) at the current position; returns False when the history failed (subtree is
+            not explored)."""
+            op = exh_op(ci, len(seq)) if op is None else op
             seq.append(ci)
             ops.append(op)
             try:
@@ -584,12 +594,24 @@ def drv_exhaustive(ctx: Ctx, sub: SubCheck):
                 t.errors.append(f"{sub.name}: DFS saw {failed} for class sequence {seq} but the fresh replay holds")
             return False
 
+        def probes():
+            """truncated / prefix datagrams of every class as the next datagram of the current history"""
+            for probe in prefix_probes(len(seq)):
+                s = r.snapshot()
+                ok = visit(len(CLASSES) - 1, probe)
+                t.case(sub.name, nontrivial=ok and r.st["damaged_reacted"] > 0, cls="prefix_probe" if ok else "failing")
+                seq.pop()
+                ops.pop()
+                r.restore(s)
+
         def rec():
             L = len(seq)
             if L >= 2:
                 t.case(sub.name, nontrivial=_seq_nontrivial(seq) or r.st["damaged_reacted"] > 0, cls=f"len_{L}")
                 if (sum((i + 1) * 31 ** k for k, i in enumerate(seq)) % 24007) == 0:
                     t.sample(sub.name, {"class_sequence": [CLASSES[i] for i in seq]})
+            if 2 <= L <= probe_depth:
+                probes()
             if L >= depth:
                 return
             for ci in range(n):
@@ -617,6 +639,12 @@ def drv_exhaustive(ctx: Ctx, sub: SubCheck):
     for i in range(n):
         ctx.run_case(sub.name, oracle_history, {"ops": [exh_op(i, 0)]})
         ctx.tally.case(sub.name, cls="len_1", nontrivial=CLASSES[i] in ACK_CLASSES)
+    # truncation probes after the empty history and after every single class (longer histories: inside the DFS)
+    for first in [None] + list(range(n)):
+        pre = [] if first is None else [exh_op(first, 0)]
+        for probe in prefix_probes(len(pre)):
+            ctx.run_case(sub.name, oracle_history, {"ops": pre + [probe]})
+            ctx.tally.case(sub.name, cls="prefix_probe")
     # directed: own S/N counter at the 16-bit boundary (the alphabet above never gets there)
     for sn0 in (65533, 65534, 65535):
         for kind in ("rrs", "hstrp"):
@@ -627,7 +655,8 @@ def drv_exhaustive(ctx: Ctx, sub: SubCheck):
     ctx.tally.extra["exhaustive_history_length"] = depth
     ctx.tally.notes.append(
         f"{sub.name}: all class sequences of length <= {depth} over the 12-class alphabet with position-dependent concrete fields "
-        f"(the fields themselves are sampled by random_histories); a failing prefix is reported once and its extensions are not explored"
+        f"(the fields themselves are sampled by random_histories); a failing prefix is reported once and its extensions are not explored; "
+        f"after every class sequence of length <= {probe_depth} every proper prefix of each of the 12 class datagrams is delivered as a probe"
     )
 
 
